@@ -22,6 +22,18 @@ def all_bases(P, rng, limit):
     return out[:limit]
 
 
+def random_bases(P, rng, k):
+    """k random status strings with as many basic entries as rows (for problems too large to enumerate)"""
+    n, m = len(P["cols"]), len(P["rows"])
+    out = []
+    for _ in range(k):
+        basic = set(rng.sample(range(n + m), m))
+        cs = "".join("1" if j in basic else rng.choice("023" if is_free(P["cols"][j]) else "02") for j in range(n))
+        rs = "".join("1" if (n + i) in basic else rng.choice("02") for i in range(m))
+        out.append((cs, rs))
+    return out
+
+
 def model_text(P, lines):
     names = [c[0] for c in P["cols"]] + [r[0] for r in P["rows"]]
     t = "NAME    %s\n" % P["name"]
@@ -89,6 +101,34 @@ def main():
             hist = (P2, i2 is not None, b2, lb)
         cases.append((cid, "\n".join(s) + "\n"))
         meta[cid] = (P, bases, bad, vb, hist)
+    # several deletes on one problem (rows and columns, never the last one), a basis round trip after each: the name tables
+    # re-use freed slots, so slot order, index order and the cached name -> index maps drift apart step by step
+    mdmeta = {}
+    for i in range(60 if ck.thorough() else 8):
+        P = G.small_problem(rng, rng.randint(3, 5), rng.randint(5, 7), name="md%d" % i)
+        cid = "md%d" % i
+        s = ["CASE " + cid, load_block(0, P)]
+        cur, steps = P, []
+        for d in range(rng.randint(2, 4)):
+            n_, m_ = len(cur["cols"]), len(cur["rows"])
+            if m_ > 2 and (n_ <= 2 or rng.random() < 0.7):
+                k_ = rng.randrange(m_ - 1)
+                s.append("EDIT h0 delrow %d" % k_)
+                cur = dict(cur, rows=[r for q_, r in enumerate(cur["rows"]) if q_ != k_])
+            elif n_ > 2:
+                k_ = rng.randrange(n_ - 1)
+                s.append("EDIT h0 delcol %d" % k_)
+                nm_ = cur["cols"][k_][0]
+                cur = dict(cur, cols=[c for q_, c in enumerate(cur["cols"]) if q_ != k_],
+                           rows=[(r[0], r[1], r[2], r[3], [e for e in r[4] if e[0] != nm_]) for r in cur["rows"]])
+            else:
+                break
+            bs = random_bases(cur, rng, 8)
+            for q_, (cs, rs) in enumerate(bs):
+                s += ["WRITEBASIS h0 m%d_%d.bas %s %s" % (d, q_, cs, rs), "READBASIS h0 m%d_%d.bas" % (d, q_)]
+            steps.append((cur, bs))
+        cases.append((cid, "\n".join(s) + "\n"))
+        mdmeta[cid] = steps
     scripts = dict(cases)
     M, outs, crashes, _ = run_io_cases(cases, tag="C14", per_case_timeout=300)
     if crashes:
@@ -215,6 +255,30 @@ def main():
             elif ga[0][1:3] != cur:
                 ck.violation("loadedown_consumed_%s_%d.txt" % (cid, k), scripts[cid], "mpq_QSwrite_basis(p, NULL, file) changed the loaded basis %s into %s" % (cur, ga[0][1:3]),
                              match=dict(kind="write-own-basis-consumed"))
+    nmd = 0
+    for cid, steps in mdmeta.items():
+        if cid not in outs or cid in [c[0] for c in crashes]:
+            continue
+        o = RtOut(outs[cid])
+        o.next("LOAD")
+        ok_ = True
+        for d, (Pk, bs) in enumerate(steps):
+            e = o.next("EDIT")
+            ok_ = ok_ and e is not None and e[0][1] == "0"
+            fr = [is_free(c) for c in Pk["cols"]]
+            for (cs, rs) in bs:
+                w, rd = o.next("WRITEBASIS"), o.next("READBASIS")
+                if not ok_ or w is None or rd is None:
+                    continue
+                nmd += 1
+                ck.count((problem_text(Pk), "multi-delete", d, cs, rs))
+                exp_c = "".join(("3" if f_ else "0") if st in "03" else st for st, f_ in zip(cs, fr))
+                got = rd[0][2:4] if rd[0][1] == "OK" else ["FAIL"]
+                if w[0][1] != "0" or got != [exp_c or "-", rs or "-"]:
+                    ck.violation("multidelete_%s_%d.txt" % (cid, d), scripts[cid] + "\n# after delete number %d: basis %s %s came back as %s (write rv %s)\n" % (d + 1, cs, rs, got, w[0][1]),
+                                 "after %d deletes of non-last rows / columns, basis %s %s of the remaining problem came back as %s from its own file" % (d + 1, cs, rs, got),
+                                 match=dict(kind="roundtrip-after-delete"))
+    ck.cov["roundtrips_after_several_deletes"] = nmd
     if not pr["ok"]:
         ck.violation("proof.txt", pr["log"], "proof obligation(s) of Properties_C14.v no longer check: %s" % pr["failed"], no_input=not ck.violations)
     ck.cov["bases_compared"] = nb
